@@ -337,6 +337,7 @@ func (e *Engine) scanWrites(fn *ssa.Function, blocks []*ssa.BasicBlock, ws *Writ
 						ws.prints = true
 					}
 					switch {
+					case name == "slices.Index" || name == "slices.Contains" || name == "slices.Equal":
 					case strings.HasPrefix(name, "slices."):
 						ws.elems, ws.allocs = true, true
 						if strings.Contains(name, "Func") {
